@@ -43,7 +43,7 @@ deriving Repr
 
 /-- result kinds of one API call -/
 inductive Res where
-  | ok | eof | finalised | hang | panic
+  | ok | eof | finalised | hang | panic | ioerr
 deriving DecidableEq, Repr
 
 structure State where
